@@ -294,6 +294,19 @@ func casesLean(name string, rows [][3]string) string {
 // package-level variables (shared by every instance and every goroutine) and every statement that writes
 // one of them — an assignment, ++/--, an element or field assignment rooted at it, or a call of a mutating
 // method (Set*, Assign, Clear, Add*, Remove*, Push, Pop, Write*) on it — anywhere outside its declaration
+// the package-level variable an expression is a plain alias of (`Empty`, `variants.Empty`), "" otherwise
+func aliasOf(e ast.Expr) string {
+	switch x := e.(type) {
+	case *ast.Ident:
+		return x.Name
+	case *ast.SelectorExpr:
+		if _, ok := x.X.(*ast.Ident); ok {
+			return x.Sel.Name
+		}
+	}
+	return ""
+}
+
 func sharedState() []site {
 	var out []site
 	globals := map[string]bool{} // name -> declared at package level somewhere
@@ -373,6 +386,11 @@ func sharedState() []site {
 				switch st := n.(type) {
 				case *ast.AssignStmt:
 					if st.Tok == token.DEFINE {
+						for _, r := range st.Rhs {
+							if id := aliasOf(r); id != "" && globals[id] && !local[id] {
+								out = append(out, site{x.rel, funcName(fd), "global-escape", exprStr(st)})
+							}
+						}
 						for _, l := range st.Lhs {
 							if id, ok := l.(*ast.Ident); ok {
 								local[id.Name] = true
@@ -383,6 +401,11 @@ func sharedState() []site {
 					for _, l := range st.Lhs {
 						if r := root(l); r != "" && globals[r] && !local[r] {
 							out = append(out, site{x.rel, funcName(fd), "global-write", exprStr(st)})
+						}
+					}
+					for _, r := range st.Rhs {
+						if id := aliasOf(r); id != "" && globals[id] && !local[id] {
+							out = append(out, site{x.rel, funcName(fd), "global-escape", exprStr(st)})
 						}
 					}
 				case *ast.IncDecStmt:
@@ -396,6 +419,15 @@ func sharedState() []site {
 								for _, nm := range vs.Names {
 									local[nm.Name] = true
 								}
+							}
+						}
+					}
+				case *ast.ReturnStmt:
+					// a shared mutable object handed out to the caller
+					for _, r := range st.Results {
+						if g := root(r); g != "" && globals[g] && !local[g] && exprStr(r) == strings.TrimPrefix(exprStr(r), "&") {
+							if _, isCall := r.(*ast.CallExpr); !isCall {
+								out = append(out, site{x.rel, funcName(fd), "global-escape", exprStr(st)})
 							}
 						}
 					}
